@@ -1239,7 +1239,7 @@ impl ParserListener for Screen {
                     if let Some(n) = attrs_list.pop() {
                         if n == 5 {
                             if let Some(m) = attrs_list.pop() {
-                                if m < 16 {
+                                if (m as usize) < FG_BG_256.len() {
                                     replace.insert(key.to_string(), FG_BG_256[m as usize].clone());
                                 }
                             }
